@@ -62,6 +62,7 @@ def write_errors_to_yaml(container, yaml_doc):
                     relative=_is_relative,
                     correlation_coefficient=_err_obj._corr_coeff,
                     # TODO: public interface for _corr_coeff!
+                    enabled=_err_dict.get("enabled", True),
                 )
             )
         elif _err_obj.__class__ is MatrixGaussianError:
@@ -72,6 +73,7 @@ def write_errors_to_yaml(container, yaml_doc):
                     type="matrix",
                     matrix_type=_mtype,
                     relative=_is_relative,
+                    enabled=_err_dict.get("enabled", True),
                 )
             )
             if _mtype == "covariance":
@@ -173,7 +175,11 @@ def process_error_sources(container_obj, yaml_doc):
             raise ValueError("Missing required key '%s' for error specification" % e.args[0])
 
         # add error to data container
+        _names_before = set(container_obj._error_dicts.keys())
         container_obj = add_error_to_container(_err_type, container_obj, **_add_kwargs)
+        if not _err.get("enabled", True):
+            for _new_name in set(container_obj._error_dicts.keys()) - _names_before:
+                container_obj.disable_error(_new_name)
 
     return container_obj, yaml_doc
 
